@@ -63,8 +63,8 @@ impl Check for C15 {
     }
     fn budget(&self, tier: Tier) -> u64 {
         match tier {
-            Tier::Quick => 6000,
-            Tier::Thorough => 200_000,
+            Tier::Quick => 30_000,
+            Tier::Thorough => 600_000,
         }
     }
     fn run(&self, ch: &mut Chooser, _tier: Tier) -> RunOutcome {
